@@ -111,7 +111,7 @@ func (s *Sim) mutateConf() *ConfSpec {
 		qs := c.allQueues()
 		path := pick(r, qs)
 		q := c.Find(path)
-		switch r.Intn(14) {
+		switch r.Intn(15) {
 		case 0, 1: // change the maximum
 			if path == "root" {
 				continue
@@ -238,6 +238,17 @@ func (s *Sim) mutateConf() *ConfSpec {
 			q.Children = append(q.Children, nq)
 			q.Guar = nil
 			s.probe("reload_leaf_to_parent")
+		case 14: // access control lists
+			if path == "root" {
+				// keep root as generated: closing it would only make every later submission fail
+				continue
+			}
+			if r.Bool(0.5) {
+				q.SubmitACL = pick(r, []string{"", "alice", "alice,bob dev", " ops", "*"})
+			} else {
+				q.AdminACL = pick(r, []string{"", "carol", " qa", "bob dev"})
+			}
+			s.probe("reload_acl_change")
 		case 11: // partition level settings
 			switch r.Intn(3) {
 			case 0:
